@@ -153,3 +153,42 @@ func init() {
 		mutant{Name: "xorConst-folds-or", Prop: "C03", File: "interp/op.go", Old: "constant.BinaryOp(constant.ToInt(vConstantValue(v0)), token.XOR, constant.ToInt(vConstantValue(v1)))", New: "constant.BinaryOp(constant.ToInt(vConstantValue(v0)), token.OR, constant.ToInt(vConstantValue(v1)))", Rule: "R03.1", Key: "aXor/xorConst"},
 	)
 }
+
+func init() {
+	addMutants(
+		// ---- C01
+		mutant{Name: "multi-define-assigns-as-it-evaluates", Prop: "C01", File: "interp/run.go", Old: "\t\t\t\tt[i] = reflect.New(types[i]).Elem()\n\t\t\t\tt[i].Set(s(f))\n\t\t\t}\n\t\t\tfor i := range svalue {\n\t\t\t\tif n.child[i].ident == \"_\" {\n\t\t\t\t\tcontinue\n\t\t\t\t}\n\t\t\t\tdata := getFrame(f, level[i]).data\n\t\t\t\tj := index[i]\n\t\t\t\tdata[j] = reflect.New(data[j].Type()).Elem()\n\t\t\t\tdata[j].Set(t[i])\n\t\t\t}", New: "\t\t\t\tdata := getFrame(f, level[i]).data\n\t\t\t\tj := index[i]\n\t\t\t\tdata[j] = reflect.New(data[j].Type()).Elem()\n\t\t\t\tdata[j].Set(s(f))\n\t\t\t}\n\t\t\t_ = t", Rule: "R01.6", Key: "assign/multi-closure"},
+		mutant{Name: "scope-not-popped-for-forStmt4", Prop: "C01", File: "interp/cfg.go", Old: "\t\t\tpost.tnext = body.start\n\t\t\tbody.tnext = post.start\n\t\t\tsc = sc.pop()\n\n\t\tcase forStmt5:", New: "\t\t\tpost.tnext = body.start\n\t\t\tbody.tnext = post.start\n\n\t\tcase forStmt5:", Rule: "R01.1", Key: "cfg/scope:forStmt4"},
+		mutant{Name: "define-reuses-slot", Prop: "C01", File: "interp/run.go", Old: "\t\t\t\tdata := getFrame(f, l).data\n\t\t\t\tdata[ind] = reflect.New(data[ind].Type()).Elem()\n\t\t\t\tdata[ind].Set(s(f))", New: "\t\t\t\tdata := getFrame(f, l).data\n\t\t\t\tdata[ind].Set(s(f))", Rule: "R01.2", Key: "assign/define-closure"},
+		mutant{Name: "loopvar-not-reallocated", Prop: "C01", File: "interp/run.go", Old: "\t\trv := f.data[vln.findex]\n\t\tnv := reflect.New(rv.Type()).Elem()\n\t\tnv.Set(rv)\n\t\tf.data[n.findex] = nv", New: "\t\tf.data[n.findex] = f.data[vln.findex]", Rule: "R01.3", Key: "loopVarVal/fresh-copy"},
+		mutant{Name: "copynode-drops-ident", Prop: "C01", File: "interp/generic.go", Old: "\t\tident:  n.ident,\n", New: "", Rule: "R01.4", Key: "copyNode/field:ident"},
+		// ---- C05
+		mutant{Name: "log-print-key-dropped", Prop: "C05", File: "stdlib/maptypes.go", Old: "\tMapTypes[reflect.ValueOf(log.Printf)] = mt\n", New: "", Rule: "R05.1", Key: "log.Printf"},
+		mutant{Name: "fatal-rekey-dropped", Prop: "C05", File: "interp/use.go", Old: "\t\tinterp.mapTypes[p[\"Fatalln\"]] = interp.mapTypes[reflect.ValueOf(log.Fatalln)]\n", New: "", Rule: "R05.1", Key: "MapTypes/log.Fatalln"},
+		mutant{Name: "rekey-from-wrong-function", Prop: "C05", File: "interp/use.go", Old: "interp.mapTypes[p[\"Scan\"]] = interp.mapTypes[reflect.ValueOf(fmt.Scan)]", New: "interp.mapTypes[p[\"Scan\"]] = interp.mapTypes[reflect.ValueOf(fmt.Print)]", Rule: "R05.1", Key: "fixStdlib/rekey:fmt.Scan"},
+		// ---- C11
+		mutant{Name: "resize-drops-old-values", Prop: "C11", File: "interp/interp.go", Old: "\tdata := make([]reflect.Value, l)\n\tcopy(data, interp.frame.data)\n", New: "\tdata := make([]reflect.Value, l)\n", Rule: "R11.2", Key: "resizeFrame/keeps-old-values"},
+		mutant{Name: "resize-reinitialises-all", Prop: "C11", File: "interp/interp.go", Old: "\tfor j, t := range interp.universe.types[b:] {\n\t\tdata[b+j] = reflect.New(t).Elem()\n\t}", New: "\tfor j, t := range interp.universe.types {\n\t\tdata[j] = reflect.New(t).Elem()\n\t}\n\t_ = b", Rule: "R11.2", Key: "resizeFrame/initialises-tail-only"},
+		mutant{Name: "scope-recreated", Prop: "C11", File: "interp/scope.go", Old: "\tif _, ok := interp.scopes[pkgID]; !ok {\n\t\tinterp.scopes[pkgID] = sc.pushBloc()\n\t}", New: "\tinterp.scopes[pkgID] = sc.pushBloc()", Rule: "R11.3", Key: "initScopePkg/scopes-store"},
+		mutant{Name: "eval-resets-srcpkg", Prop: "C11", File: "interp/program.go", Old: "\tif name != \"\" {\n\t\tinterp.name = name\n\t}", New: "\tif name != \"\" {\n\t\tinterp.name = name\n\t\tinterp.srcPkg = imports{}\n\t}", Rule: "R11.1", Key: "Interpreter.srcPkg/stored-by"},
+		mutant{Name: "closure-shares-root-frame", Prop: "C11", File: "interp/run.go", Old: "\t\tfr := f.clone()\n\t\to := getFrame(f, l).data[i]", New: "\t\tfr := f\n\t\tif f != f.root {\n\t\t\tfr = f.clone()\n\t\t}\n\t\to := getFrame(f, l).data[i]", Rule: "R11.5", Key: "getFunc/closure-frame-is-a-clone"},
+		// ---- C15
+		mutant{Name: "globals-after-inits", Prop: "C15", File: "interp/program.go", Old: "\tinterp.run(n, nil)\n\n\tfor _, n := range p.init {\n\t\tinterp.run(n, interp.frame)\n\t}", New: "\tfor _, n := range p.init {\n\t\tinterp.run(n, interp.frame)\n\t}\n\tinterp.run(n, nil)", Rule: "R15.1", Key: "Interpreter.Execute/phases"},
+		mutant{Name: "init-prepended", Prop: "C15", File: "interp/cfg.go", Old: "\t\t\t\tinitNodes = append(initNodes, n)", New: "\t\t\t\tinitNodes = append([]*node{n}, initNodes...)", Rule: "R15.2", Key: "cfg/start-list-store"},
+		mutant{Name: "import-once-test-dropped", Prop: "C15", File: "interp/src.go", Old: "\tif interp.srcPkg[importPath] != nil {", New: "\tif interp.srcPkg[importPath] != nil && skipTest {", Rule: "R15.3", Key: "importSrc/import-once"},
+		mutant{Name: "dependency-collector-ignores-functions", Prop: "C15", File: "interp/cfg.go", Old: "\t\t\tcase sym.kind == funcSym && sym.node != nil && sym.node.kind == funcDecl && !seen[sym.node]:\n\t\t\t\t// Dependencies also pass through the bodies of the referenced functions.\n\t\t\t\tseen[sym.node] = true\n\t\t\t\twalk(sym.node.child[3], true)\n", New: "\t\t\tcase len(seen) > 1<<30:\n", Rule: "R15.4", Key: "getVarDependencies/follows-functions"},
+		// ---- C16
+		mutant{Name: "cycle-mark-after-readdir", Prop: "C16", File: "interp/src.go", Old: "\tinterp.rdir[importPath] = true\n\n\tfiles, err := fs.ReadDir(interp.opt.filesystem, dir)\n\tif err != nil {\n\t\treturn \"\", err\n\t}\n", New: "\tfiles, err := fs.ReadDir(interp.opt.filesystem, dir)\n\tif err != nil {\n\t\treturn \"\", err\n\t}\n\tdefer func() { interp.rdir[importPath] = true }()\n", Rule: "R16.1", Key: "importSrc/cycle-mark"},
+		mutant{Name: "gopath-before-vendor", Prop: "C16", File: "interp/src.go", Old: "\trPath := filepath.Join(root, \"vendor\")\n\tdir := filepath.Join(goPath, \"src\", rPath, importPath)\n\n\tif _, err := fs.Stat(interp.opt.filesystem, dir); err == nil {\n\t\treturn dir, rPath, nil // found!\n\t}\n\n\tdir = filepath.Join(goPath, \"src\", effectivePkg(root, importPath))\n\n\tif _, err := fs.Stat(interp.opt.filesystem, dir); err == nil {\n\t\treturn dir, root, nil // found!\n\t}\n", New: "\tdir := filepath.Join(goPath, \"src\", effectivePkg(root, importPath))\n\n\tif _, err := fs.Stat(interp.opt.filesystem, dir); err == nil {\n\t\treturn dir, root, nil // found!\n\t}\n\n\trPath := filepath.Join(root, \"vendor\")\n\tdir = filepath.Join(goPath, \"src\", rPath, importPath)\n\n\tif _, err := fs.Stat(interp.opt.filesystem, dir); err == nil {\n\t\treturn dir, rPath, nil // found!\n\t}\n", Rule: "R16.2", Key: "pkgDir/vendor-first"},
+		mutant{Name: "readfile-from-disk", Prop: "C16", File: "interp/src.go", Old: "if buf, err = fs.ReadFile(interp.opt.filesystem, name); err != nil {", New: "if buf, err = os.ReadFile(name); err != nil {", Rule: "R16.3", Key: "Interpreter.importSrc/filesystem"},
+		// ---- C18
+		mutant{Name: "var-bound-by-value-in-generator", Prop: "C18", File: "extract/extract.go", Old: "\t\t\tval[name] = Val{pname, true}", New: "\t\t\tval[name] = Val{pname, false}", Rule: "R18.2", Key: "genContent/addr-only-for-vars"},
+		mutant{Name: "template-forwards-wrong-field", Prop: "C18", File: "extract/extract.go", Old: "\t\t\t{{- $m.Ret}} W.W{{$m.Name}}{{$m.Arg -}}", New: "\t\t\t{{- $m.Ret}} W.{{$m.Name}}{{$m.Arg -}}", Rule: "R18.3", Key: "model/wrapper-method"},
+		mutant{Name: "generic-func-not-skipped", Prop: "C18", File: "extract/extract.go", Old: "\t\t\tif s := o.Type().(*types.Signature); s.TypeParams().Len() > 0 || s.RecvTypeParams().Len() > 0 {\n\t\t\t\tcontinue\n\t\t\t}\n", New: "", Rule: "R18.2", Key: "genContent/generic-func-skipped"},
+		// ---- C19
+		mutant{Name: "debugger-writes-frame-data", Prop: "C19", File: "interp/debugger.go", Old: "\tf.debug.g.fDepth--\n", New: "\tf.debug.g.fDepth--\n\tif len(f.data) > 0 {\n\t\tf.data[0] = reflect.Value{}\n\t}\n", Rule: "R19.1", Key: "(*Debugger).exitCall/stores"},
+		mutant{Name: "step-over-skips-breakpoints", Prop: "C19", File: "interp/debugger.go", Old: "\tcase n.shouldBreak():\n\t\te.reason = DebugBreak\n\n\tcase g.mode == debugRun:\n\t\treturn false\n", New: "\tcase g.mode == debugRun:\n\t\tif !n.shouldBreak() {\n\t\t\treturn false\n\t\t}\n\t\te.reason = DebugBreak\n", Rule: "R19.3", Key: "Debugger.exec/breakpoint-before-shortcuts"},
+		mutant{Name: "terminate-event-not-deferred", Prop: "C19", File: "interp/debugger.go", Old: "\t\tdefer events(&DebugEvent{reason: DebugTerminate})\n", New: "", Rule: "R19.4", Key: "Debug/terminate-event"},
+		mutant{Name: "debug-loop-runs-two-ops", Prop: "C19", File: "interp/run.go", Old: "\t\texec = exec(f)\n\t\tif exec == nil {\n\t\t\tbreak\n\t\t}\n", New: "\t\texec = exec(f)\n\t\tif exec == nil {\n\t\t\tbreak\n\t\t}\n\t\tif m == nil {\n\t\t\texec = exec(f)\n\t\t}\n", Rule: "R19.2", Key: "runCfg/loop#2/step"},
+	)
+}
